@@ -36,10 +36,10 @@ static W vm_self(void) { return vm_tid; }
 static void vm_fence(void) { VM_FENCE(); }
 static void vm_abort(void) { __CPROVER_assert(0, "abort() / failed library assertion reached"); __CPROVER_assume(0); }
 
-static _Bool vm_others_quiet(int level) { /* level 1: done|parked|eg|cand ; level 2: done|parked|cand */
+static _Bool vm_others_quiet(int level) { /* level 1: everybody else is EG or beyond ; level 2: CAND or beyond */
   _Bool ok = 1;
   for (int u = 1; u <= VM_NTHREADS; u++)
-    if ((W)u != vm_tid) ok = ok && (vm_done[u] || vm_parked[u] || vm_cand[u] || (level == 1 && vm_eg[u]));
+    if ((W)u != vm_tid) { unsigned char st = vm_status[u]; ok = ok && (level == 1 ? st >= VS_EG : st >= VS_CAND); }
   return ok;
 }
 /* called for every `pause` (cpu_relax) and by the kernel for every yield of a running fiber:
@@ -47,23 +47,23 @@ static _Bool vm_others_quiet(int level) { /* level 1: done|parked|eg|cand ; leve
 static void vm_spin(void) {
   if (vm_stage == 0) {
     if (++vm_spins <= VM_SPIN_BOUND) return;
-    vm_stage = 1; vm_eg[vm_tid] = 1;
+    vm_stage = 1; vm_status[vm_tid] = VS_EG;
     __CPROVER_assume(vm_others_quiet(1));
     return;
   }
   if (vm_stage == 1) {
-    vm_stage = 2; vm_cand[vm_tid] = 1;
+    vm_stage = 2; vm_status[vm_tid] = VS_CAND;
     __CPROVER_assume(vm_others_quiet(2));
     return;
   }
-  vm_parked[vm_tid] = 2; vm_dead = 1;
+  vm_status[vm_tid] = VS_STUCK; vm_dead = 1;
 }
 static void vm_progress(void) {
   /* an operation completed.  After the confirm stage a thread must not resume (others relied on it being stuck).
      The spin budget is per thread, not per operation, unless the harness asks for VM_SPIN_RESET. */
   if (vm_stage == 2) __CPROVER_assume(0);
 #ifdef VM_SPIN_RESET
-  if (vm_stage == 1) { vm_stage = 0; vm_eg[vm_tid] = 0; }
+  if (vm_stage == 1) { vm_stage = 0; vm_status[vm_tid] = VS_RUN; }
   vm_spins = 0;
 #endif
 }
@@ -71,13 +71,12 @@ static void vm_thread_begin(int t) { vm_tid = t; vm_kt = (t - 1) % VM_NKT; vm_de
 static void vm_thread_end(int t) {
   if (vm_dead) return;
   if (vm_stage == 2) __CPROVER_assume(0);
-  vm_done[t] = 1;
+  vm_status[t] = VS_DONE;
 }
 static void vm_start(void) {}
 static void vm_monitor(void) {
   _Bool all = 1, stuck = 0;
-  for (int u = 1; u <= VM_NTHREADS; u++) { all = all && (vm_done[u] || vm_parked[u]); }
+  for (int u = 1; u <= VM_NTHREADS; u++) { unsigned char st = vm_status[u]; all = all && st >= VS_PARKED; stuck = stuck || st == VS_STUCK; }
   __CPROVER_assume(all);
-  for (int u = 1; u <= VM_NTHREADS; u++) { stuck = stuck || vm_parked[u] == 2; }
   __CPROVER_assert(!stuck, "liveness: a thread spins forever although every other thread has finished (livelock / lost wake-up)");
 }
